@@ -329,13 +329,31 @@ compile: rustls 0.20–0.22, native-tls) has the shape the `Acceptor` model is w
 from the default, `set_handshake_timeout` assigns, the hand-written `Clone` copies the timeout,
 `new_service` hands the factory's timeout and a clone of the thread's `MAX_CONN_COUNTER` handle to the
 service, whose `poll_ready` / `call` gate on that counter and arm that timeout; `LocalWaker::register`
-replaces the stored waker.  Regenerated from the
+replaces the stored waker; `MAX_CONN` is one process-wide atomic that `max_concurrent_tls_connect` stores into and
+the thread-local counter is built from.  Regenerated from the
 source text by every check run (`tools/spans/tls.py`). -/
 theorem source_shape :
     (Src.tlsAcceptShapeRustls020 ++ Src.tlsAcceptShapeRustls021 ++ Src.tlsAcceptShapeRustls022 ++
       Src.tlsAcceptShapeRustls023 ++ Src.tlsAcceptShapeOpenssl ++ Src.tlsAcceptShapeNativeTls ++
-      Src.localWakerShape).all (·.2) = true ∧
+      Src.localWakerShape ++ Src.tlsMaxConnShape).all (·.2) = true ∧
     (Src.tlsAcceptShapeOpenssl.map (·.1)).contains "clone_copies_timeout" = true := by decide
+
+/-! ### The limit is process-wide, the counter per thread -/
+
+/-- A limit configured on one thread (start-up code on the main thread) is the limit of every thread
+whose counter is created afterwards: after **any** history on such a thread its services answer
+`Pending` exactly while at least `n` handshakes are in progress there.  Never configured: 256. -/
+theorem limit_reaches_new_threads (p : Proc) (n tmo : Nat) (ops : List Op) :
+    ((p.setMax n).newThread tmo).cap = n ∧
+    ((((p.setMax n).newThread tmo).run ops).pollReady.2 = false ↔ n ≤ (((p.setMax n).newThread tmo).run ops).inProgress) ∧
+    (({} : Proc).newThread tmo).cap = Src.tlsDefaultMaxConn :=
+  ⟨rfl, gate_general n tmo ops, rfl⟩
+
+/-- … and conversely a thread whose counter exists keeps the capacity it was created with, whatever is
+configured later (`max_concurrent_tls_connect` does not reach existing counters) -/
+theorem limit_fixed_once_counter_exists (p : Proc) (tmo m : Nat) (ops : List Op) :
+    ((p.newThread tmo).run ops).cap = p.maxConn ∧
+    (((p.setMax m).newThread tmo).cap = m) := ⟨run_cap _ ops, rfl⟩
 
 /-! ### The defaults (T1: regenerated from accept/mod.rs) -/
 
